@@ -76,6 +76,6 @@ Section Zlib.
     else if enc =? c_MUSCLE_MESSAGE_ENCODING_DEFAULT then (c, Some (drop f_hs buf))
     else (c, None).
 
-  Definition z_do_output := f_do_output zcs z_flat.
-  Definition z_do_input (max_in : N) := f_do_input zcr z_unflat max_in.
+  Definition z_do_output := f_do_output bytes zcs z_flat.
+  Definition z_do_input (max_in : N) := f_do_input bytes zcr z_unflat d_body_size max_in.
 End Zlib.
